@@ -790,7 +790,7 @@ func ruleUnregister(c *Ctx) {
 		if ok && (b.Op == token.EQL || b.Op == token.NEQ) {
 			if s, isS := constString(b.Y); isS && s == "" {
 				eq := (b.Op == token.EQL) == dir
-				if f, _ := fieldLoad(b.X); f == fQuery {
+				if f, _ := fieldLoad(t.Resolve(fr, b.X).V); f == fQuery {
 					if eq {
 						return []Ev{{Kind: "own-is-base"}}
 					}
@@ -850,6 +850,9 @@ func ruleUnregister(c *Ctx) {
 				for _, e2 := range path[k+1:] {
 					if e2.Kind == want {
 						found = true
+					}
+					if e2.Kind == e.Kind {
+						continue // the same test seen again (once as the helper's decision, once as the caller's)
 					}
 					if e2.Kind == "iter" || e2.Kind == "alias-is-base" || e2.Kind == "alias-is-link" {
 						break
